@@ -154,6 +154,17 @@ NodeReply(p) ==
   /\ lastSent' = <<>>
   /\ UNCHANGED <<cvars, nd, syncPeer, hf, nextCp, ban>>
 
+\* a node that does NOT honour the stop hash (C07: any position of an offending header within any batch): it sends the
+\* next headers of its chain up to the cap
+ReplyIdsRaw(p, rq) == ReplyIds(p, [rq EXCEPT !.stop = -1])
+NodeReplyRaw(p) ==
+  /\ nd[p].conn /\ nq[p] # <<>>
+  /\ mq' = Append(mq, [t |-> "hdrs", p |-> p, ids |-> ReplyIdsRaw(p, Head(nq[p]))])
+  /\ nq' = [nq EXCEPT ![p] = Tail(@)]
+  /\ pk' = ClearFilter(p)
+  /\ lastSent' = <<>>
+  /\ UNCHANGED <<cvars, nd, syncPeer, hf, nextCp, ban>>
+
 \* the node's chain advances to block b (a child of its tip, or a switch to a longer branch) and it announces it
 NodeAnnounce(p, b, how) ==
   /\ nd[p].conn /\ b \in Blocks /\ HOf(b) > HOf(nd[p].best)
@@ -172,6 +183,14 @@ NodeClose(p) ==
   /\ mq' = Append(mq, [t |-> "done", p |-> p])
   /\ lastSent' = <<>>
   /\ UNCHANGED <<cvars, pk, syncPeer, hf, nextCp, ban>>
+
+\* the service as a SERVER of headers (serverpeer.OnGetHeaders, C13 at the protocol level): a connected node asks with a
+\* locator and a stop hash; the request is ignored unless the manager believes it is current, otherwise the answer is
+\* Chain!GetHeaders (at most 2000).  Nothing changes in the service.
+Served(loc, stop) == IF MgrCurrent THEN [sent |-> TRUE, ids |-> GetHeaders(loc, stop, 2000)]
+                     ELSE [sent |-> FALSE, ids |-> <<>>]
+NodeAsk(p) == /\ nd[p].conn /\ lastSent' = <<>>
+              /\ UNCHANGED <<cvars, nd, pk, syncPeer, hf, nextCp, mq, nq, ban>>
 
 \* the process is stopped and started again on the same database: every connection goes down, the manager, the peer
 \* objects and the server's ban list are rebuilt from nothing but the store (p2psync.New, newServer)
@@ -193,6 +212,15 @@ MgrNew(m) ==
        /\ pk' = o.pk /\ nq' = o.nq /\ lastSent' = o.sent /\ syncPeer' = o.sync /\ hf' = o.hf
        /\ UNCHANGED <<cvars, nextCp, ban>>
 
+\* C07: a NEW header stored at the height of a checkpoint must be that checkpoint, or its sender is disconnected.
+\* verifyCheckpointHeight compares only with the single next-expected checkpoint (listed finding
+\* "C1-only-next-checkpoint-compared"): a contradiction at the height of a later checkpoint (a batch that runs past the
+\* stop hash) or of one already passed goes unnoticed.
+CpMismatch(b, ht, ncp) ==
+  IF "C1-only-next-checkpoint-compared" \in Findings
+    THEN ncp # 0 /\ ht = HOf(ncp) /\ b # ncp
+    ELSE CpEnabled /\ ht \in CpHeights /\ b # CpAtH(ht)
+
 \* ingestion of a batch: fold over the headers; stops at a forbidden header or a checkpoint mismatch
 RECURSIVE Ingest(_, _, _, _, _)
 \* returns [rows, final, gotCp, stop]   stop \in {"", "forbidden", "cpmismatch"}
@@ -204,7 +232,7 @@ Ingest(r, ids, k, acc, ncp) ==
        ELSE LET r2  == AddRow(acc.rows, b, Par[b], 1, b)
                 ht  == r2[b].height
                 a2  == [acc EXCEPT !.rows = r2]
-            IN IF ncp # 0 /\ ht = HOf(ncp) /\ b # ncp THEN [a2 EXCEPT !.stop = "cpmismatch"]
+            IN IF CpMismatch(b, ht, ncp) THEN [a2 EXCEPT !.stop = "cpmismatch"]
                ELSE LET a3 == IF ncp # 0 /\ b = ncp THEN [a2 EXCEPT !.gotCp = TRUE] ELSE a2
                         a4 == IF r2[b].st = "L" THEN [a3 EXCEPT !.final = b] ELSE a3
                     IN Ingest(r, ids, k + 1, a4, ncp)
@@ -270,9 +298,10 @@ MgrStep ==
        /\ mq' = Tail(mq) \o DoneMsgs(cl)
 
 EnvStep == \/ \E p \in Peers, b \in Blocks \cup {0} : Connect(p, b) \/ ConnectBanned(p, b)
-           \/ \E p \in Peers : NodeReply(p) \/ NodeClose(p)
+           \/ \E p \in Peers : NodeReply(p) \/ NodeReplyRaw(p) \/ NodeClose(p)
            \/ \E p \in Peers, b \in Blocks, how \in {"inv", "headers"} : NodeAnnounce(p, b, how)
            \/ RestartSrv
+           \/ \E p \in Peers : NodeAsk(p)
 
 SyNext == MgrStep \/ (mq = <<>> /\ EnvStep)
 \* fairness: the manager handles what it receives; connected nodes answer what they were asked (assumption E2)
